@@ -335,35 +335,36 @@ func runJobs(prop string, tier core.Tier, seed uint64, jobs []shardJob, workdir 
 // merge
 
 type merge struct {
-	prop        string
-	tier        core.Tier
-	seed        uint64
-	def         *core.PropDef
-	evals       uint64
-	distinctBC  uint64
-	digestFiles []string
-	overflow    uint64
-	samples     []core.Sample
-	hist        map[string]uint64
-	max         map[string]float64
-	maxAt       map[string]string
-	viol        []core.Witness
-	violCount   uint64
-	known       map[string]uint64
-	knownEx     map[string]core.Witness
-	knownAspect map[string]uint64
-	knownWit    []core.KnownWitnessResult
-	exhaustive  map[string]uint64
-	sections    map[string]uint64
-	harnessErr  []string
-	inconcl     []string
-	notes       []string
-	cpu         float64
-	extra       map[string]uint64
-	raceReports []raceReport
-	coverage    map[string]any
-	workersOK   int
-	workersAll  int
+	prop            string
+	tier            core.Tier
+	seed            uint64
+	def             *core.PropDef
+	evals           uint64
+	distinctBC      uint64
+	digestFiles     []string
+	overflow        uint64
+	samples         []core.Sample
+	hist            map[string]uint64
+	max             map[string]float64
+	maxAt           map[string]string
+	viol            []core.Witness
+	violCount       uint64
+	known           map[string]uint64
+	knownEx         map[string]core.Witness
+	knownAspect     map[string]uint64
+	knownWit        []core.KnownWitnessResult
+	exhaustive      map[string]uint64
+	sections        map[string]uint64
+	harnessErr      []string
+	inconcl         []string
+	notes           []string
+	cpu             float64
+	extra           map[string]uint64
+	raceReports     []raceReport
+	coverage        map[string]any
+	confirmedStalls int
+	workersOK       int
+	workersAll      int
 }
 
 type raceReport struct {
@@ -442,15 +443,23 @@ func (m *merge) handleDeadWorker(oc shardOutcome, workdir string) {
 	switch oc.exitCode {
 	case core.ExitSuspect, core.ExitAllocCap:
 		f := strings.Fields(string(susp))
+		if len(f) >= 2 && m.confirmedStalls >= 2 {
+			// two suspicions were already confirmed in isolation in this run: further ones are
+			// recorded, not re-confirmed (each confirmation costs 20 CPU-seconds by design)
+			m.notes = append(m.notes, fmt.Sprintf("further watchdog suspicion %q not re-confirmed (two already confirmed in this run)", strings.TrimSpace(string(susp))))
+			return
+		}
 		if len(f) >= 2 {
 			idx, _ := strconv.ParseUint(f[1], 10, 64)
 			r2 := runShard(m.prop, m.tier, m.seed, oc.job, workdir, "-replay-section", f[0], "-replay-index", f[1])
 			switch {
 			case r2.exitCode == core.ExitHang:
+				m.confirmedStalls++
 				m.violCount++
 				m.viol = append(m.viol, core.Witness{Property: m.prop, Tier: m.tier, Seed: m.seed, Section: f[0], Index: idx,
 					Aspect: "hang", Detail: core.W{"note": "one case consumed more than 20 CPU-seconds when re-run alone", "watchdog": string(susp)}, Race: oc.job.race})
 			case r2.exitCode == core.ExitAllocCap:
+				m.confirmedStalls++
 				m.violCount++
 				m.viol = append(m.viol, core.Witness{Property: m.prop, Tier: m.tier, Seed: m.seed, Section: f[0], Index: idx,
 					Aspect: "alloc/heap-cap", Detail: core.W{"note": "heap above 3 GiB while this single case was in flight", "watchdog": string(susp)}, Race: oc.job.race})
